@@ -284,7 +284,7 @@ def shapes(tier):
         for offs in itertools.product((0, 1, 2), repeat=total):
             if 0 in offs:
                 out.append((counts, offs))
-    return out[:400]
+    return out[:150]
 
 
 def run(mf, tier):
